@@ -520,6 +520,9 @@ async fn exec_inner(t: Trace, prop: &'static str) -> Outcome {
     out.digest = w.digest;
     out.vt_ms = rt::virtual_elapsed_ms();
     out.tails = w.conns.iter().map(|c| c.all_lines.iter().rev().take(12).rev().cloned().collect()).collect();
+    // the executed schedule (segment arrivals, releases, settles) and the gate sites at which handlers parked
+    out.tails.push(sched_log.iter().map(|s| format!("schedule: {}", s)).collect());
+    out.tails.push(site_log.iter().map(|s| format!("parked at: {}", site_name(*s as usize))).collect());
     let describe = |ops: &Vec<Vec<Op>>| -> String {
         ops.iter().map(|v| v.iter().map(|o| format!("c{}:{:?}->{:?}", o.c, o.line, o.window)).collect::<Vec<_>>().join(" ; ")).collect::<Vec<_>>().join(" || ")
     };
